@@ -119,6 +119,12 @@ CHECKS = {
         text="Pairs/triples of generated programs with disjoint names but overlapping signal types are compiled alone and interleaved (three orders) under relay-heavy schedules and pole options; every component's outputs and entity conditions in the joint blueprint must equal those of the component alone for every valuation, and the model checks on the joint blueprint that no entity owned by one program reads a network carrying a non-zero signal emitted by the other.",
         design_ref="DESIGN.md 3 (C12)",
     ),
+    "C14": dict(
+        category="exploration",
+        technique="runtime monitoring: mutation of accepted host programs by embedding a violating construct per documented rule at every kind of position; outcome of the real compile entry points (in-process and CLI subprocesses) observed, with a monitor on ProgramDiagnostics.error",
+        text="Each documented static rule is embedded as a violating construct into randomly generated accepted host programs at first/middle/last position, inside called functions, inside executed loop bodies and loops inside functions; the host must be accepted, the mutated program must not compile, the diagnostic must name the problem, and for a sample the real CLI entry points must exit non-zero with nothing that decodes as a blueprint on stdout or in the -o file.",
+        design_ref="DESIGN.md 3 (C14)",
+    ),
 }
 
 PENDING = {}
